@@ -120,6 +120,20 @@ func report(o *Options, res *runResult, smtDir string, wall time.Duration) int {
 		for _, e := range u.errs {
 			engineErrors = append(engineErrors, u.name+": "+e)
 		}
+		if len(u.errs) > 0 && expected != nil {
+			// the unit verified on the reference tree; its contract no longer applies to the code
+			had := false
+			for _, e := range expected.Obligations {
+				if strings.HasPrefix(e, u.name+"::") {
+					had = true
+					break
+				}
+			}
+			if had {
+				path := writeReplayNote(replayDir, u.name, "contract-binding", "the contract of "+u.name+" verified on the reference tree and can no longer be applied to the changed code:\n"+strings.Join(u.errs, "\n"))
+				violations = append(violations, violation{u.name, "contract-binding", "contract no longer applies to the changed code: " + trunc(u.errs[0], 160), path, false})
+			}
+		}
 	}
 	for _, m := range res.missing {
 		if k := isKnown(m, "target-missing"); k != nil {
